@@ -28,7 +28,8 @@ theorem loops_lanewise :
     (loop_lnot.canonical ∧ loop_lnot.args = [.vec 0 .i]) ∧
     (loop_PREFIX_OP_v.canonical ∧ loop_PREFIX_OP_v.args = [.vec 0 .i] ∧ loop_PREFIX_OP_v.inPlace = true) ∧
     (loop_ASSIGNMENT_OP_vv.canonical ∧ loop_ASSIGNMENT_OP_vv.args = [.vec 0 .i, .vec 1 .i] ∧ loop_ASSIGNMENT_OP_vv.inPlace = true) ∧
-    (loop_ASSIGNMENT_OP_vs.canonical ∧ loop_ASSIGNMENT_OP_vs.args = [.vec 0 .i, .scalar] ∧ loop_ASSIGNMENT_OP_vs.inPlace = true) ∧
+    (loop_ASSIGNMENT_OP_vs.canonical ∧ loop_ASSIGNMENT_OP_vs.args = [.vec 0 .i, .scalar] ∧ loop_ASSIGNMENT_OP_vs.inPlace = true ∧
+      loop_ASSIGNMENT_OP_vs.scalarByRef = false) ∧
     (loop_BINARY_OP_vv.canonical ∧ loop_BINARY_OP_vv.args = [.vec 0 .i, .vec 1 .i]) ∧
     (loop_BINARY_OP_vs.canonical ∧ loop_BINARY_OP_vs.args = [.vec 0 .i, .scalar]) ∧
     (loop_BINARY_OP_sv.canonical ∧ loop_BINARY_OP_sv.args = [.scalar, .vec 0 .i]) ∧
@@ -101,6 +102,20 @@ theorem lane_op_classify (f : α → Option Bool) (a : Vec α S) :
     LanewiseUn (Simd.isNaN f a) f a ∧ LanewiseUn (Simd.isInf f a) f a ∧ LanewiseUn (Simd.isFinite f a) f a :=
   ⟨lanewise_isNaN f a, lanewise_isInf f a, lanewise_isFinite f a⟩
 
+/-- compound assignment whose scalar operand **is a lane of the destination** (`v OP= Simd::lane(k, v)`, a reference
+    into `v`): because the translated operator takes its scalar by value (`scalarByRef = false`), every lane is
+    combined with the value lane `k` had *before* the call — flat and nested.  (`Simd.assignVA` executes the aliasing
+    semantics for either passing mode; with a by-reference scalar the statement is false.) -/
+theorem lane_op_assign_aliased (sem : AssignOp → α → α → Option α) (op : AssignOp) (a : Vec α S) (k : Nat) (hk : k < S) :
+    LanewiseBinVS (Simd.assignVA sem op a k) (sem op) a a[k] := by
+  rw [assignVA_byValue sem op a k hk]; exact lanewise_assignVS sem op a a[k]
+theorem lane_op_assign_aliased_nested {S₂ : Nat} (sem : AssignOp → α → α → Option α) (op : AssignOp)
+    (a : Vec (Vec α S₂) S) (k : Nat) (hk : k < S * S₂) :
+    ∃ s, Simd.laneNested k a = some s ∧
+      Simd.assignVANested sem op a k = Simd.ipVS loop_ASSIGNMENT_OP_vs (Simd.assignVS sem op) a s := by
+  obtain ⟨_, _, h⟩ := nested_lane_divmod a k hk
+  exact ⟨_, h, by rw [assignVANested_byValue, h]; rfl⟩
+
 /-- what "lane-wise" means, spelled out for the binary case: if the vector operation returns `v`, lane `l` of
     `v` is the scalar operation on lane `l` of the operands; and it returns whenever every lane is defined -/
 theorem lane_op_meaning (sem : BinOp → α → α → Option α) (op : BinOp) (a b : Vec α S) :
@@ -120,6 +135,9 @@ theorem lane_op_nested {S₂ : Nat} (sem : BinOp → α → α → Option α) (o
 
 end LaneOp
 
+-- aliasing: [2,3,4,5] /= lane 0 gives [1,1,2,2] (every lane divided by the original 2), not [1,3,4,5]
+example : Simd.assignVA (fun (_ : AssignOp) (x y : Int) => if y = 0 then none else some (x / y)) .div
+    (#v[2, 3, 4, 5] : Vec Int 4) 0 = some #v[1, 1, 2, 2] := by decide +kernel
 -- non-vacuity: a concrete operator on concrete lanes (Int, two's-complement-free exact arithmetic)
 example : Simd.binaryVV (fun (_ : BinOp) (x y : Int) => some (x - y)) .sub (#v[5, -3, 7, 0] : Vec Int 4) #v[1, 2, 3, 4]
     = some #v[4, -5, 4, -4] := by decide
